@@ -1,0 +1,61 @@
+//go:build verif
+
+package vgirpc
+
+import (
+	"github.com/apache/arrow-go/v18/arrow"
+	"github.com/apache/arrow-go/v18/arrow/array"
+	"github.com/apache/arrow-go/v18/arrow/memory"
+)
+
+// Constants for the C11 model (a stream behaves the same over HTTP as over a
+// pipe): the texts of the framework's own per-turn errors, obtained by
+// provoking them on the compiled OutputCollector / castRecordBatch, never
+// copied by hand.
+func init() {
+	verifConstProviders = append(verifConstProviders, func() []VerifConst {
+		schema := arrow.NewSchema([]arrow.Field{{Name: "v", Type: arrow.PrimitiveTypes.Int64}}, nil)
+		mk := func(s *arrow.Schema) arrow.RecordBatch {
+			b := array.NewInt64Builder(memory.DefaultAllocator)
+			defer b.Release()
+			b.Append(1)
+			arr := b.NewArray()
+			defer arr.Release()
+			return array.NewRecordBatch(s, []arrow.Array{arr}, 1)
+		}
+		// second Emit in one turn
+		oc := newOutputCollector(schema, "", true)
+		_ = oc.Emit(mk(schema))
+		b2 := mk(schema)
+		twice := oc.Emit(b2)
+		b2.Release()
+		oc.releaseBatches()
+		// no data batch
+		noData := newOutputCollector(schema, "", true).validate()
+		// Finish on an exchange collector
+		finEx := newOutputCollector(schema, "", false).Finish()
+		// input whose field name differs from the declared input schema
+		want := arrow.NewSchema([]arrow.Field{{Name: "x", Type: arrow.PrimitiveTypes.Int64}}, nil)
+		got := arrow.NewSchema([]arrow.Field{{Name: "y", Type: arrow.PrimitiveTypes.Int64}}, nil)
+		gb := mk(got)
+		_, castErr := castRecordBatch(gb, want)
+		gb.Release()
+		txt := func(e error) string {
+			if e == nil {
+				return ""
+			}
+			return e.Error()
+		}
+		return []VerifConst{
+			verifBytes("c11_err_two_batches", txt(twice)),
+			verifBytes("c11_exc_two_batches", VerifExceptionType(twice)),
+			verifBytes("c11_err_no_data", txt(noData)),
+			verifBytes("c11_exc_no_data", VerifExceptionType(noData)),
+			verifBytes("c11_err_finish_exchange", txt(finEx)),
+			verifBytes("c11_exc_finish_exchange", VerifExceptionType(finEx)),
+			verifBytes("c11_err_cast_name", txt(castErr)),
+			verifBytes("c11_exc_cast_name", VerifExceptionType(castErr)),
+			verifBytes("c11_rpc_sep", (&RpcError{Type: "", Message: ""}).Error()),
+		}
+	})
+}
